@@ -41,8 +41,9 @@ def plan(tier, seed):
                     cases.append({"seed": common.subseed(seed, "c05", mode, i), "mode": mode, "edit": label, "kill_samples": 2, "step_samples": None, "slice": [k, 3]})
         cases += [{"seed": common.subseed(seed, "c05x", mode), "mode": mode, "extract": True, "_first": True} for mode in ("dev", "build")]
         return cases
-    for i in range(80):
-        cases.append({"seed": common.subseed(seed, "c05", i), "mode": ["dev", "build"][i % 2], "kill_samples": None, "step_samples": None})
+    for i in range(20):
+        for k in range(4):      # all abort points of one project state, spread over 4 workers
+            cases.append({"seed": common.subseed(seed, "c05", i), "mode": ["dev", "build"][i % 2], "kill_samples": None, "step_samples": None, "slice": [k, 4]})
     cases += [{"seed": common.subseed(seed, "c05x", i), "mode": ["dev", "build"][i % 2], "extract": True, "_first": i < 2} for i in range(8)]
     return cases
 
